@@ -120,8 +120,12 @@ def relocsOfJson (j : Json) (k : String) : Except String (List Reloc) := do
 
 def cfgOfJson (j : Json) : Except String Cfg := do
   let c ← j.getObjVal? "cfg"
-  pure { ps := ← getNat c "ps", ptr := ← getNat c "ptr", top := ← getNat c "top",
-         aslr := ← getBool c "aslr", bare := ← getBool c "bare" }
+  let ps ← getNat c "ps"
+  let ptr ← getNat c "ptr"
+  let top ← getNat c "top"
+  let aslr ← getBool c "aslr"
+  let bare ← getBool c "bare"
+  pure { ps := ps, ptr := ptr, top := top, aslr := aslr, bare := bare }
 
 def fixOfJson (j : Json) : Except String Fix := do
   match j.getObjVal? "fix" with
@@ -169,7 +173,9 @@ def opElf (j : Json) : Except String Json := do
   if c.ps = 0 then return Json.str "unmodelled"
   let file ← getHex j "file"
   let ph ← (← getArr j "phdrs").toList.mapM phdrOfJson
-  let img : ElfImage := { file := file, phdrs := ph, entry := ← getNat j "entry", relocs := ← relocsOfJson j "relocs" }
+  let entry ← getNat j "entry"
+  let relocs ← relocsOfJson j "relocs"
+  let img : ElfImage := { file := file, phdrs := ph, entry := entry, relocs := relocs }
   result j (loadElf fx c img) (elfWrites fx c img) (some (decide (LoadableOK c img)))
 
 def peSecOfJson (e : Json) : Except String PeSection := do
@@ -182,9 +188,15 @@ def opPe (j : Json) : Except String Json := do
   let fx ← fixOfJson j
   let c ← cfgOfJson j
   if c.ps = 0 then return Json.str "unmodelled"
-  let img : PeImage := { file := ← getHex j "file", base := ← getNat j "base", salign := ← getNat j "salign",
-    sections := ← (← getArr j "sections").toList.mapM peSecOfJson, entryRva := ← getNat j "entry",
-    stackReserve := ← getNat j "stack", iat := ← relocsOfJson j "iat" }
+  let file ← getHex j "file"
+  let base ← getNat j "base"
+  let salign ← getNat j "salign"
+  let secs ← (← getArr j "sections").toList.mapM peSecOfJson
+  let entry ← getNat j "entry"
+  let stack ← getNat j "stack"
+  let iat ← relocsOfJson j "iat"
+  let img : PeImage := { file := file, base := base, salign := salign, sections := secs, entryRva := entry,
+    stackReserve := stack, iat := iat }
   result j (some (loadPe fx c img)) (peWrites fx c img) none
 
 def machSegOfJson (e : Json) : Except String MachSeg := do
@@ -198,8 +210,11 @@ def opMacho (j : Json) : Except String Json := do
   if c.ps = 0 then return Json.str "unmodelled"
   let st ← j.getObjVal? "stack"
   let stack ← (if st.isNull then pure none else do pure (some (← st.getNat?)) : Except String (Option Nat))
-  let img : MachImage := { file := ← getHex j "file", segs := ← (← getArr j "segs").toList.mapM machSegOfJson,
-    stack := stack, slots := ← relocsOfJson j "slots", entry := ← getNat j "entry" }
+  let file ← getHex j "file"
+  let segs ← (← getArr j "segs").toList.mapM machSegOfJson
+  let slots ← relocsOfJson j "slots"
+  let entry ← getNat j "entry"
+  let img : MachImage := { file := file, segs := segs, stack := stack, slots := slots, entry := entry }
   result j (some (loadMach c img)) (machWrites c img) none
 
 def opRecords (j : Json) : Except String Json := do
@@ -208,7 +223,9 @@ def opRecords (j : Json) : Except String Json := do
     match p.toList with
     | [a, h] => pure ((← a.getNat?, ← unhex (← h.getStr?)) : Record)
     | _ => throw "record")
-  result j (some (loadRecords rs (← getNat j "entry") (← getNat j "pcbits"))) (recordWrites rs) none
+  let entry ← getNat j "entry"
+  let pcbits ← getNat j "pcbits"
+  result j (some (loadRecords rs entry pcbits)) (recordWrites rs) none
 
 def opPage (j : Json) : Except String Json := do
   let ps ← getNat j "ps"
